@@ -335,13 +335,13 @@ Section Corollaries.
     intros H Hne. apply (multi_transfer_spec E Hc) in H as (_ & _ & H).
     rewrite (beqb_false _ _ Hne) in H. exact H.
   Qed.
-  Lemma quiet_consistent s s0 a trs : quiet E s s0 -> triples_consistent E s a trs -> triples_consistent E s0 a trs.
+  Lemma silent_consistent s s0 a trs : silent E s s0 -> triples_consistent E s a trs -> triples_consistent E s0 a trs.
   Proof.
     intros Hq. unfold triples_consistent. apply Forall_impl. intros x Hx t Ht. apply Hx.
-    rewrite <- Ht. symmetry. apply (quiet_tok_at E _ _ _ _ Hq).
+    rewrite <- Ht. symmetry. apply (silent_tok_at E _ _ _ _ Hq).
   Qed.
-  Lemma quiet_nonneg s s0 a : quiet E s s0 -> nonneg_balances E s a -> nonneg_balances E s0 a.
-  Proof. intros Hq H k. rewrite (quiet_balance E _ _ _ _ Hq). apply H. Qed.
+  Lemma silent_nonneg s s0 a : silent E s s0 -> nonneg_balances E s a -> nonneg_balances E s0 a.
+  Proof. intros Hq H k. rewrite (silent_balance E _ _ _ _ Hq). apply H. Qed.
 
   (* everything the sums lemma gives, transported to the pre- and post-state of the call *)
   Theorem multi_sender_effects i s o s' :
@@ -359,14 +359,14 @@ Section Corollaries.
   Proof.
     intros H Heq Hcons Hnn. destruct (multi_sender_post _ _ _ _ H Heq) as (lst & Hp). exists lst. split; [exact Hp|].
     destruct Hp. destruct mp_steps as (s0 & s1 & Q0 & Hs & Q1).
-    destruct (snd_steps_spec E _ _ _ _ _ _ _ _ _ mp_dst_ne Hs (quiet_consistent _ _ _ _ Q0 Hcons)
-                (fun h => quiet_nonneg _ _ _ Q0 (Hnn h))) as (Hb & Hf & Hn' & Hue & Hpos).
-    split; [intros a k; rewrite (quiet_balance E _ _ _ _ Q1), Hb, (quiet_balance E _ _ _ _ Q0); reflexivity|].
-    split; [exact Hf|]. split; [intros h; apply (quiet_nonneg _ _ _ Q1), Hn', h|].
+    destruct (snd_steps_spec E _ _ _ _ _ _ _ _ _ mp_dst_ne Hs (silent_consistent _ _ _ _ Q0 Hcons)
+                (fun h => silent_nonneg _ _ _ Q0 (Hnn h))) as (Hb & Hf & Hn' & Hue & Hpos).
+    split; [intros a k; rewrite (silent_balance E _ _ _ _ Q1), Hb, (silent_balance E _ _ _ _ Q0); reflexivity|].
+    split; [exact Hf|]. split; [intros h; apply (silent_nonneg _ _ _ Q1), Hn', h|].
     split.
-    { eapply unchanged_except_trans; [apply (quiet_unchanged E _ _ _ _ Q0)|].
-      eapply unchanged_except_trans; [exact Hue|apply (quiet_unchanged E _ _ _ _ Q1)]. }
-    intros x Hx. rewrite (quiet_balance E _ _ _ _ Q1). apply Hpos. exact Hx.
+    { eapply unchanged_except_trans; [apply (silent_unchanged E _ _ _ _ Q0)|].
+      eapply unchanged_except_trans; [exact Hue|apply (silent_unchanged E _ _ _ _ Q1)]. }
+    intros x Hx. rewrite (silent_balance E _ _ _ _ Q1). apply Hpos. exact Hx.
   Qed.
 
   Theorem transfer_balance_effect_multi_sender i s o s' :
@@ -385,8 +385,8 @@ Section Corollaries.
     /\ nonneg_balances E s' (i_rcpt i).
   Proof.
     intros H Hne Hnn Hcn. destruct (multi_dest_post _ _ _ _ H Hne). destruct mq_steps as (s0 & Q0 & Hs).
-    destruct (dst_steps_spec E _ _ _ _ _ _ Hs (quiet_nonneg _ _ _ Q0 Hnn) Hcn) as [Hb Hn'].
-    split; [|exact Hn']. intros a k. rewrite Hb, (quiet_balance E _ _ _ _ Q0). reflexivity.
+    destruct (dst_steps_spec E _ _ _ _ _ _ Hs (silent_nonneg _ _ _ Q0 Hnn) Hcn) as [Hb Hn'].
+    split; [|exact Hn']. intros a k. rewrite Hb, (silent_balance E _ _ _ _ Q0). reflexivity.
   Qed.
 
   (* total debit of cell k requested by a list of triples *)
@@ -431,7 +431,7 @@ Section Corollaries.
       assert (Hnz : multi_snd_triples i <> []).
       { intros Hnil. apply (f_equal (@length _)) in Hnil. unfold multi_snd_triples in Hnil.
         rewrite multi_triples_length in Hnil. cbn [length] in Hnil. lia. }
-      rewrite (quiet_balance E _ _ _ _ Q1), <- (quiet_balance E _ _ a k Q0) in Hch.
+      rewrite (silent_balance E _ _ _ _ Q1), <- (silent_balance E _ _ a k Q0) in Hch.
       destruct (multi_same E i) eqn:Es.
       + destruct (beqb_spec a (multi_dst i)) as [->|Hd].
         * split; [reflexivity|]. split; [reflexivity|]. apply verify_admissible. apply Hpay; auto.
@@ -442,7 +442,7 @@ Section Corollaries.
       assert (Hnz : multi_dst_triples i <> []).
       { intros Hnil. apply (f_equal (@length _)) in Hnil. unfold multi_dst_triples in Hnil.
         rewrite multi_triples_length in Hnil. cbn [length] in Hnil. lia. }
-      rewrite <- (quiet_balance E _ _ a k Q0) in Hch.
+      rewrite <- (silent_balance E _ _ a k Q0) in Hch.
       destruct (beqb_spec a (i_rcpt i)) as [->|Hd].
       + split; [reflexivity|]. apply verify_admissible. apply Hpay. exact Hnz.
       + exfalso. apply Hch. apply (ue_balance E _ _ _ _ Hue). intros [? _]. contradiction.
@@ -478,22 +478,22 @@ Section Corollaries.
     - destruct (multi_sender_post _ _ _ _ H Heq) as (lst & Hp). destruct Hp. destruct mp_steps as (s0 & s1 & Q0 & Hs & Q1).
       destruct (snd_steps_frame E _ _ _ _ _ _ _ _ _ Hs) as (Hue & Ht & Hnf & _).
       split.
-      { eapply unchanged_except_trans; [apply (quiet_unchanged E _ _ _ _ Q0)|].
-        eapply unchanged_except_trans; [|apply (quiet_unchanged E _ _ _ _ Q1)].
+      { eapply unchanged_except_trans; [apply (silent_unchanged E _ _ _ _ Q0)|].
+        eapply unchanged_except_trans; [|apply (silent_unchanged E _ _ _ _ Q1)].
         eapply unchanged_except_weaken; [| |exact Hue]; [|auto]. intros a k [Ha Hk]. split; [|exact Hk].
         destruct Ha as [->|[_ ->]]; auto. }
       split.
-      { intros L HL H1 _ H3. eapply touches_trans; [apply (quiet_touches E _ _ _ Q0)|].
-        eapply touches_trans; [apply Ht; auto|apply (quiet_touches E _ _ _ Q1)]. }
-      eapply nofault_trans; [apply (quiet_nofault E _ _ Q0)|]. eapply nofault_trans; [exact Hnf|apply (quiet_nofault E _ _ Q1)].
+      { intros L HL H1 _ H3. eapply touches_trans; [apply (silent_touches E _ _ _ Q0)|].
+        eapply touches_trans; [apply Ht; auto|apply (silent_touches E _ _ _ Q1)]. }
+      eapply nofault_trans; [apply (silent_nofault E _ _ Q0)|]. eapply nofault_trans; [exact Hnf|apply (silent_nofault E _ _ Q1)].
     - destruct (multi_dest_post _ _ _ _ H Hne). destruct mq_steps as (s0 & Q0 & Hs).
       destruct (dst_steps_frame E _ _ _ _ _ _ Hs) as (Hue & Ht & Hnf & _).
       split.
-      { eapply unchanged_except_trans; [apply (quiet_unchanged E _ _ _ _ Q0)|].
+      { eapply unchanged_except_trans; [apply (silent_unchanged E _ _ _ _ Q0)|].
         eapply unchanged_except_weaken; [| |exact Hue]; [|auto]. intros a k [-> Hk]. split; [auto|exact Hk]. }
       split.
-      { intros L HL _ H2 _. eapply touches_trans; [apply (quiet_touches E _ _ _ Q0)|apply Ht; auto]. }
-      eapply nofault_trans; [apply (quiet_nofault E _ _ Q0)|exact Hnf].
+      { intros L HL _ H2 _. eapply touches_trans; [apply (silent_touches E _ _ _ Q0)|apply Ht; auto]. }
+      eapply nofault_trans; [apply (silent_nofault E _ _ Q0)|exact Hnf].
   Qed.
 
   (* the emitted transfer on the cross-shard path *)
@@ -811,7 +811,7 @@ Section Totals.
     pose proof (multi_dest_post E Hc _ _ _ _ H Hne) as Hp. destruct Hp. destruct mq_steps as (s0 & Q0 & Hs).
     destruct (dst_steps_frame E _ _ _ _ _ _ Hs) as (_ & Ht' & _).
     assert (Ht1 : touches [i_rcpt i] s s').
-    { eapply touches_trans; [apply (quiet_touches E _ _ _ Q0)|apply Ht'; [apply nodup_one|left; reflexivity]]. }
+    { eapply touches_trans; [apply (silent_touches E _ _ _ Q0)|apply Ht'; [apply nodup_one|left; reflexivity]]. }
     destruct (shard_total_one (i_rcpt i) s s' k
                (fun a => if beqb a (i_rcpt i) then kv_sum k (dst_credits E (multi_dst_triples i)) else 0%Z) Ht1 Hnd)
       as [Hn' Hsum]; [intros x; apply Hb|].
@@ -842,10 +842,10 @@ Section Totals.
   Proof.
     intros H Heq Hcons. destruct (multi_sender_post E Hc _ _ _ _ H Heq) as (lst & Hp). exists lst. split; [exact Hp|].
     destruct Hp. destruct mp_steps as (s0 & s1 & Q0 & Hs & Q1).
-    destruct (snd_steps_entries E _ _ _ _ _ _ _ _ _ mp_dst_ne Hs (quiet_consistent E _ _ _ _ Q0 Hcons) s0
+    destruct (snd_steps_entries E _ _ _ _ _ _ _ _ _ mp_dst_ne Hs (silent_consistent E _ _ _ _ Q0 Hcons) s0
                 (same_upto_value_refl E _ _)) as [Hf _].
     clear - Hf Q0. induction Hf as [|x y l1 l2 (t0 & Ht0 & Hy & Hfr) Hf IH]; constructor; [|exact IH].
-    rewrite (quiet_tok_at E _ _ _ _ Q0) in Ht0. exists t0. split; [exact Ht0|]. split; [exact Hy|].
+    rewrite (silent_tok_at E _ _ _ _ Q0) in Ht0. exists t0. split; [exact Ht0|]. split; [exact Hy|].
     intros h1 h2. unfold frozen_at. rewrite Ht0. apply Hfr; assumption.
   Qed.
 
@@ -867,7 +867,7 @@ Section Totals.
     split; [|split].
     - intros Hsc. clear - Hf Hr Hsc. induction Hf as [|x y l1 l2 (t0 & _ & _ & Hfr) Hf IH]; constructor; auto.
     - intros Hsame Hsc. rewrite Hsame in Hs.
-      pose proof (snd_steps_dst_frozen E _ _ _ _ _ _ _ mp_dst_ne Hsc Hs (quiet_consistent E _ _ _ _ Q0 Hcons) s0 (fun k h => h)) as Hfz.
+      pose proof (snd_steps_dst_frozen E _ _ _ _ _ _ _ mp_dst_ne Hsc Hs (silent_consistent E _ _ _ _ Q0 Hcons) s0 (fun k h => h)) as Hfz.
       eapply Forall_impl; [|exact Hfz]. intros x Hx. cbv beta in Hx.
       rewrite (frozen_at_accts E _ _ _ _ (proj1 Q0)) in Hx. exact Hx.
     - intros Hsys Hdsys. pose proof (snd_steps_paused E _ _ _ _ _ _ _ _ Hs Hsys Hdsys) as Hpz.
@@ -890,6 +890,24 @@ Section Totals.
     - intros kv Hin. rewrite <- (frozen_at_accts E _ _ _ _ (proj1 Q0)). apply H2. exact Hin.
   Qed.
 End Totals.
+
+(* ================================================================ *)
+(* 6. Through the dispatch                                             *)
+(* ================================================================ *)
+Lemma exec_esdt_transfer E i : exec E C.BuiltInFunctionESDTTransfer i = f_esdt_transfer E i.
+Proof. reflexivity. Qed.
+Lemma exec_nft_transfer E i : exec E C.BuiltInFunctionESDTNFTTransfer i = f_nft_transfer E i.
+Proof. reflexivity. Qed.
+Lemma exec_multi_transfer E i : exec E C.BuiltInFunctionMultiESDTNFTTransfer i = f_multi_transfer E i.
+Proof. reflexivity. Qed.
+Lemma exec_transfer_cases E f i : is_transfer_fn f = true ->
+  (f = C.BuiltInFunctionESDTTransfer /\ exec E f i = f_esdt_transfer E i)
+  \/ (f = C.BuiltInFunctionESDTNFTTransfer /\ exec E f i = f_nft_transfer E i)
+  \/ (f = C.BuiltInFunctionMultiESDTNFTTransfer /\ exec E f i = f_multi_transfer E i).
+Proof.
+  unfold is_transfer_fn. intros H. apply orb_prop in H as [H|H]; [apply orb_prop in H as [H|H]|];
+    apply beqb_true in H; subst f; auto.
+Qed.
 
 Print Assumptions esdt_transfer_spec.
 Print Assumptions nft_transfer_spec.
